@@ -855,6 +855,37 @@ proof fn lemma_last_suffix_tried_first(name: Seq<char>, k: int)
     }
 }
 
+/// C16 for EVERY registered (or `-E`-mapped) extension at once, not only the names the property lists:
+/// if the text after the LAST dot of the base name maps to a grammar, that grammar is chosen -- whatever
+/// precedes the dot ("whatever else the base name or directories contain"). Together with unit C16.table
+/// (which pins the 39 keys of `language_parsers()` on the real text) this is the full suffix table.
+proof fn lemma_c16_any_mapped_suffix(path: PathBuf, m: Map<OsString, LanguageParser>, extra: Map<OsString, OsString>, k: int)
+    requires
+        base_name(path) is Some,
+        0 <= k < base_name(path).unwrap().len() && base_name(path).unwrap()[k] == '.',
+        forall|i: int| k < i < base_name(path).unwrap().len() ==> #[trigger] base_name(path).unwrap()[i] != '.',
+        lookup(m, extra, osstring_of(base_name(path).unwrap().subrange(k + 1, base_name(path).unwrap().len() as int))) is Some,
+    ensures
+        grammar_for(path, m, extra) == lookup(m, extra, osstring_of(base_name(path).unwrap().subrange(k + 1, base_name(path).unwrap().len() as int))), // [C16.lemma.any_mapped_suffix_selects_its_grammar]
+{
+    let name = base_name(path).unwrap();
+    lemma_last_suffix_tried_first(name, k);
+    reveal_with_fuel(first_hit, 2);
+}
+
+/// ... and a name none of whose candidates maps is skipped (None), whatever it is
+proof fn lemma_c16_unmapped_is_skipped(path: PathBuf, m: Map<OsString, LanguageParser>, extra: Map<OsString, OsString>)
+    requires
+        base_name(path) matches Some(name) ==> no_candidate_maps(name, m, extra),
+    ensures
+        grammar_for(path, m, extra) is None, // [C16.lemma.unmapped_name_is_skipped]
+{
+    if base_name(path) is Some {
+        let name = base_name(path).unwrap();
+        lemma_first_hit(candidates(name), m, extra, 0);
+    }
+}
+
 /// C16 on the names the property lists, for the table of `language_parsers()` (`c16_table`, proved on
 /// the real text by unit C16.table) and no `-E` mapping.
 proof fn lemma_c16_examples(path: PathBuf, m: Map<OsString, LanguageParser>, extra: Map<OsString, OsString>)
